@@ -303,6 +303,8 @@ def _history_async(rng, n_msgs, rank, p_msg=0.62):
             for j in range(K):
                 pos = rng.randrange(0, lim)
                 ch = [(pos, bytes([rng.randrange(256), rng.randrange(256)]))]
+                if chs and rng.random() < 0.3:
+                    ch = list(chs[-1])        # the spa reports the same word again: a byte-identical datagram
                 sim_struct.replace_status_block_segment(*ch[0])
                 chs.append(ch)
                 s.inject(s.peer.push_changes(s.client_parms(), ch), delay=0.0005 * j)
@@ -413,8 +415,67 @@ def _history_sync(rng, n_msgs, p_msg=0.62):
             s.next_periodic_refresh()
             init = list(spa.struct.status_block)
         w = _Watch(spa.struct, lambda: "engine")
+
+        def lossy_refresh_with_change():
+            """the periodic refresh loses a middle segment of its first answer; while that answer is still coming in the
+            spa reports a change inside a segment that was already received; the refresh is re-requested (the final
+            segment arrives out of sequence) and what it installs is the second answer, which carries the change"""
+            b0 = spa.new_log_class.begin
+            pos = b0 + 39 + rng.randrange(2, 30)
+            st_ = {"phase": 0}
+            box = {}
+
+            def drop(data, direction):
+                if direction != "s2c":
+                    return False
+                c = inner(data) or b""
+                if c[:5] != b"STATV":
+                    return False
+                if st_["phase"] == 0 and c[5] == 3:
+                    st_["phase"] = 1
+                    return True                      # the lost middle segment
+                if st_["phase"] == 1 and c[5] >= 6:
+                    st_["phase"] = 2                 # well past the segment that holds `pos`: the spa changes it now
+                    cur = sim_struct.status_block[pos:pos + 2]
+                    ch = [(pos, bytes([(cur[0] + 1 + rng.randrange(255)) % 256, cur[1]]))]
+                    sim_struct.replace_status_block_segment(*ch[0])
+                    box["ch"] = ch
+                    box["nsent"] = len(s.sock.wire)
+                    s.inject(s.peer.push_changes(s.client_parms(), ch))
+                return False
+            s.drop = drop
+            try:
+                for _ in range(6000):
+                    s.pump(1, dt=0.05)
+                    if st_["phase"] == 2:
+                        break
+                if st_["phase"] != 2:
+                    raise env.MachineryError("the periodic refresh did not come (lossy refresh step)")
+                if not s.settle():
+                    raise env.MachineryError("the re-requested refresh did not complete")
+            finally:
+                s.drop = None
+            s.pump(4)
+            inst = w.take()
+            ch = box["ch"]
+            part = [x for x in inst if x["pos"] == pos and len(x["data"]) == 2]
+            refr = [x for x in inst if not (x["pos"] == pos and len(x["data"]) == 2)]
+            ev.append({"k": "msg", "ch": [{"pos": p_, "data": list(d_)} for p_, d_ in ch],
+                       "applied": [{"pos": x["pos"], "data": x["data"]} for x in part],
+                       "acks": _acks(s.wire()[box["nsent"]:]), "during_lossy_refresh": True})
+            for x in refr:
+                ev.append({"k": "refresh", "off": x["pos"], "data": x["data"]})
+            ev.append({"k": "got", "off": b0, "len": min(spa.new_log_class.end, 1024 - b0), "ok": True})
+
         for i in range(n_msgs):
             r = rng.random()
+            if i in (9, 23):
+                if not s.settle():
+                    raise env.MachineryError("threaded session never became quiescent before the lossy refresh step")
+                for x in w.take():
+                    ev.append({"k": "refresh", "off": x["pos"], "data": x["data"]})
+                lossy_refresh_with_change()
+                continue
             if not s.settle():
                 raise env.MachineryError("threaded session never became quiescent: " + repr({
                     "pending": s.transfer_pending(), "inbox": len(s.sock.inbox), "t": s.w2.clock.t,
